@@ -5,8 +5,9 @@
      - the extracted trace predicates c01_step .. c15_step evaluated on the
        implementation's trace                                      (violation search).
    usage: driver <obs-file> --mask f1,f2,.. --props p1,p2,.. [--dump]
-   mask fields: out keys queue vals size freq born stats
-   Output: one line per case  "V <id> ok|MISMATCH ..|PROP ..|PANIC ..|SKIP .."  and STAT lines. *)
+   mask fields: out keys queue qset vals size freq born stats
+   Output: one line per case  "V <id> ok|MISMATCH ..|PANIC ..|SKIP .."  (correspondence), lines "F <id> <prop> <op index>"
+   for every trace predicate that fails on the implementation's trace, and STAT lines. *)
 open Model
 
 let rec pos_of_int i = if i = 1 then XH else if i land 1 = 0 then XO (pos_of_int (i lsr 1)) else XI (pos_of_int (i lsr 1))
@@ -77,6 +78,7 @@ let compare_states (m : isnap) (i : isnap) : string option =
   let proj f s = List.map (fun (k, e) -> (k, f e)) s.store in
   if has "keys" && keys m <> keys i then Some "keys"
   else if has "queue" && m.queue <> i.queue then Some "queue"
+  else if has "qset" && List.sort compare m.queue <> List.sort compare i.queue then Some "qset"
   else if has "vals" && keys m = keys i && proj (fun (v, _, _, _) -> v) m <> proj (fun (v, _, _, _) -> v) i then Some "vals"
   else if has "size" && keys m = keys i && proj (fun (_, s, _, _) -> s) m <> proj (fun (_, s, _, _) -> s) i then Some "size"
   else if has "freq" && keys m = keys i && proj (fun (_, _, f, _) -> f) m <> proj (fun (_, _, f, _) -> f) i then Some "freq"
@@ -122,11 +124,13 @@ let () =
         List.iter (fun (name, p) ->
             if List.mem name !props then begin
               let idx = int_of_n (first_fail p c [] (n_of_int 1) tr) in
-              if idx <> 0 then set_verdict (Printf.sprintf "PROP %s %d" name idx)
+              if idx <> 0 then Printf.printf "F %s %s %d\n" !cur_id name idx
             end) step_preds;
         (* structural well-formedness of every snapshot is part of every engine-level property *)
         if List.mem "wf" !props then
-          List.iteri (fun i o -> if not (wf_state o.ob_post) then set_verdict (Printf.sprintf "PROP wf %d" (i + 1))) tr
+          (match List.find_opt (fun (_, o) -> not (wf_state o.ob_post)) (List.mapi (fun i o -> (i + 1, o)) tr) with
+           | Some (i, _) -> Printf.printf "F %s wf %d\n" !cur_id i
+           | None -> ())
       end;
       bump "cases";
       if !nontrivial then bump "cases_nontrivial";
